@@ -165,6 +165,32 @@ def run_task(task):
                     if tr.N != i:
                         bad('es-N', f"{where}: N={tr.N}")
             outcomes.add(('es', mag, off, ordering, n, alpha))
+        elif kind == 'long-multi':
+            # multi-key tracker over eras of very different magnitude: the normalised view must stay the ratio of the
+            # tracker's OWN current values (judged against them, so the accuracy of the base tracker does not enter)
+            from ixai.utils.tracker import MultiValueTracker
+            _, base, pattern, n = task
+            bt = WelfordTracker() if base == 'welford' else ExponentialSmoothingTracker(alpha=base)
+            tr = MultiValueTracker(bt)
+            keys = ('a', 'b', 'c')
+            for i in range(1, n + 1):
+                era = {'big-then-small': i > n // 5, 'small-then-big': i <= n // 5, 'eras': (i // (n // 8 + 1)) % 2 == 1}[pattern]
+                mag = 1e-8 if era else 1e8
+                tr.update({k: mag * (1 + 0.37 * j + 0.01 * ((i + j) % 7)) for j, k in enumerate(keys)})
+                if i % 50 == 0 or i == n:
+                    n_checked += 1
+                    raw, norm = tr.get(), tr.get_normalized()
+                    where = (f"MultiValueTracker({'WelfordTracker' if base == 'welford' else f'ExponentialSmoothingTracker(alpha={base})'}) "
+                             f"after {i} updates of 3 positive keys ({pattern}: magnitudes 1e8 / 1e-8)")
+                    tot = sum(F(float(v)) for v in raw.values())
+                    if any(not math.isfinite(float(v)) for v in norm.values()):
+                        bad('multi-not-finite', f"{where}: get_normalized() = {norm}")
+                    for k in keys:
+                        want = F(float(raw[k])) / tot
+                        if abs(F(float(norm[k])) - want) > 64 * EPS * max(want, F(1, 10 ** 6)):
+                            bad('multi-normalised', f"{where}: get_normalized()[{k!r}] = {float(norm[k])!r} but the tracked "
+                                                    f"values {dict(raw)} give {float(want)!r}")
+            outcomes.add(('multi', base, pattern, n))
         elif kind == 'explainer':
             n_checked, outcomes = explainer_case(task)
     except Exception as e:
@@ -326,11 +352,14 @@ def plan(tier):
                     for alpha in (1e-3, 0.1, 1.0):
                         if n <= 100000 and (n == 10000 or alpha == 0.1):
                             tasks.append(('long-es', mag, off, ordering, n, alpha))
+    for base in (1 / 16, 0.3, 1.0, 'welford'):
+        for pattern in ('big-then-small', 'small-then-big', 'eras'):
+            tasks.append(('long-multi', base, pattern, 2000 if not deep else 20000))
     for expl in ('pfi', 'sage'):
         for dynamic, alpha in ((False, 0.5), (True, 0.1), (True, 0.001), (True, 1.0)):
             for offset in (0.0, 1e3, 1e6):
                 tasks.append(('explainer', expl, dynamic, alpha, offset, 120 if not deep else 300))
-    tasks.sort(key=lambda t: -(t[4] if t[0].startswith('long') else 50000))
+    tasks.sort(key=lambda t: -(t[4] if t[0] in ('long-welford', 'long-es') else 50000))
     return tasks
 
 
